@@ -44,6 +44,23 @@ pub fn gamma(z: f64) -> f64 {
     }
 }
 
+/// Calculates the natural logarithm of the absolute value of the
+/// [gamma function](https://en.wikipedia.org/wiki/Gamma_function), using the same Lanczos
+/// approximation as [gamma](crate::functions::gamma). Unlike `gamma(z).ln()` it does not
+/// overflow for large arguments.
+pub fn ln_gamma(z: f64) -> f64 {
+    if z < 0.5 {
+        (PI / (PI * z).sin().abs()).ln() - ln_gamma(1. - z)
+    } else {
+        let mut x = 0.99999999999999709182;
+        for (idx, val) in GAMMA_COEFFS.iter().enumerate() {
+            x += val / ((z - 1.) + (idx as f64) + 1.);
+        }
+        let t = (z - 1.) + G - 0.5;
+        0.5 * (2. * PI).ln() + ((z - 1.) + 0.5) * t.ln() - t + x.ln()
+    }
+}
+
 /// Calculates the [beta function](https://en.wikipedia.org/wiki/Beta_function) using the
 /// relationship between the beta function and the gamma function.
 pub fn beta(a: f64, b: f64) -> f64 {
